@@ -367,6 +367,83 @@ func c14H2Cases(c *gen.Ctx) {
 			}
 		}
 	}
+	// ---- DATA frames LARGER than the initial SETTINGS_MAX_FRAME_SIZE (16384; a peer may raise the limit up to
+	// 2^24-1, net/http's server advertises 1 MiB): a body of a few envelopes cut into DATA frames whose data is
+	// exactly 16384 (the last size every peer accepts), 16385, 40000, 65536 bytes (one exchange: 2^20 in both
+	// directions) x {the whole body in one frame, one big frame + a small tail, the big frame starting inside a
+	// prefix and ending inside the next message's prefix with two envelope boundaries inside it} x the big
+	// frame in the request / in the response x unpadded / padded (the padded frame's payload is longer still)
+	// x both sides x the way the direction ends.  The body events are those of the data bytes, whatever the framing.
+	bigParts := []func(int, int) []int{c15Whole, c15Fixed(16384), c15RandPart(r), c15Fixed(65536), c15Fixed(1000)}
+	bigBody := func(size int) []byte { // exactly size bytes: three complete envelopes
+		m1 := c15Msg(0, c15Filler(size/3))
+		m2 := c15Msg(1, []byte("hello!"))
+		m3 := c15Msg(0, c15Filler(size-len(m1)-len(m2)-5))
+		return append(append(m1, m2...), m3...)
+	}
+	bigLayouts := []struct {
+		name string
+		tail bool
+		cuts func(size int) []int
+	}{
+		{"one-frame", false, func(int) []int { return nil }},
+		{"big-frame+tail", true, func(size int) []int { return []int{size} }},
+		{"boundaries-inside-big-frame", true, func(size int) []int { return []int{3, size + 3} }},
+	}
+	bigCase := func(size, li int, bigQ, bigP, server bool, scheme int) {
+		k++
+		lay := bigLayouts[li]
+		qb, pb := reqBody, respMsgs
+		var qcuts, pcuts []int
+		if bigQ {
+			qb, qcuts = bigBody(size), lay.cuts(size)
+			if lay.tail {
+				qb = append(qb, c15Msg(0, []byte("tail"))...)
+			}
+		}
+		if bigP {
+			pb, pcuts = bigBody(size), lay.cuts(size)
+			if lay.tail {
+				pb = append(pb, c15Msg(2, []byte("{}"))...)
+			}
+		}
+		trailers := k%2 == 0
+		frames := []c15Frame{c15H("q", c15ReqFields("h2", reqCTs[k%3], "/svc.S/M"), false)}
+		qp := cutUp(qb, qcuts)
+		for i, p := range qp {
+			frames = append(frames, c15D("q", p, !trailers && i == len(qp)-1))
+		}
+		if trailers {
+			frames = append(frames, c15H("q", [][2]string{{"x-req-trailer", "t"}}, true))
+		}
+		pct := []string{"application/grpc", "application/connect+proto", "application/grpc-web+proto"}[(k/3)%3]
+		frames = append(frames, c15H("p", c15RespFields("200", pct), false))
+		pp := cutUp(pb, pcuts)
+		for i, p := range pp {
+			frames = append(frames, c15D("p", p, !trailers && i == len(pp)-1))
+		}
+		if trailers {
+			frames = append(frames, c15H("p", [][2]string{{"grpc-status", "0"}}, true))
+		}
+		emit(server, frames, bigParts[k%len(bigParts)], "big-data-frame:"+lay.name, scheme)
+		e.Count(fmt.Sprintf("h2:big-data-frame-size:%d", size))
+	}
+	for _, size := range []int{16384, 16385, 40000, 65536} {
+		for li := range bigLayouts {
+			for dir := 0; dir < 2; dir++ {
+				for pi := 0; pi < 2; pi++ {
+					for _, server := range []bool{false, true} {
+						scheme := 0
+						if pi == 1 {
+							scheme = 1 + k%(len(c14H2PadSchemes)-1)
+						}
+						bigCase(size, li, dir == 0, dir == 1, server, scheme)
+					}
+				}
+			}
+		}
+	}
+	bigCase(1<<20, 2, true, true, false, 2)
 }
 
 // c14H2PadSchemes: how the DATA frames of an exchange are padded
